@@ -91,8 +91,8 @@ impl Prop for Startup {
     }
     fn cases(tier: Tier) -> u32 {
         match tier {
-            Tier::Quick => 20_000,
-            Tier::Thorough => 1_500_000,
+            Tier::Quick => 100_000,
+            Tier::Thorough => 4_000_000,
         }
     }
     fn floors() -> Vec<(&'static str, u32)> {
